@@ -45,6 +45,7 @@ var sourceDeps = []string{
 }
 
 type HarnessFile struct {
+	Stubs   [][2]string // //verif:stub <target func> <harness func> (same package)
 	Src     string // path under /verif/harness/<ID>/
 	PkgDir  string // repo-relative package directory
 	Uses    []string
@@ -94,6 +95,11 @@ func readHarnessFiles(cfg *Config) ([]*HarnessFile, error) {
 			} else if strings.HasPrefix(line, "//verif:use ") {
 				for _, u := range strings.Split(strings.TrimPrefix(line, "//verif:use "), ",") {
 					hf.Uses = append(hf.Uses, strings.TrimSpace(u))
+				}
+			} else if strings.HasPrefix(line, "//verif:stub ") {
+				f := strings.Fields(strings.TrimPrefix(line, "//verif:stub "))
+				if len(f) == 2 {
+					hf.Stubs = append(hf.Stubs, [2]string{f[0], f[1]})
 				}
 			} else if strings.HasPrefix(line, "package ") {
 				break
